@@ -567,6 +567,19 @@ def _assert_monotonicity_constraints(weights, units, scale, monotonicities,
   """
   monotonicity_asserts = []
 
+  # The derivative along a dimension carries the sign of every other factor, so
+  # with monotonicity constraints all weights must be nonnegative (see
+  # finalize_weight_constraints).
+  if utils.count_non_zeros(monotonicities) > 0:
+    min_weight = tf.reduce_min(weights)
+    monotonicity_asserts.append(
+        tf.Assert(
+            min_weight >= -eps,
+            data=[
+                "Monotonicity violation (negative weights)", "Min weight:",
+                min_weight, "Epsilon:", eps, "Weights:", weights
+            ]))
+
   # Recall that w.shape is (1, lattice_sizes, units * dims, num_terms).
   weights_shape = weights.get_shape().as_list()
   _, lattice_sizes, units_times_dims, num_terms = weights_shape
